@@ -69,6 +69,16 @@ DeriveNew(T, p, recs) ==
 
 EncNew(T, p, recs) == EncPrepared(DeriveNew(T, p, recs))
 
+\* a well-formed batch as a broker may hold it (e.g. after compaction: records removed, header kept):
+\* h gives every header field but batch_length and crc, which the format derives
+EncGiven(T, h, recs) ==
+  LET pre == [base_offset |-> h.base_offset, batch_length |-> IntV(0), ple |-> h.ple, crc |-> <<0, 0>>,
+              attributes |-> h.attributes, last_offset_delta |-> h.last_offset_delta,
+              base_ts |-> h.base_ts, max_ts |-> h.max_ts, producer_id |-> h.producer_id,
+              producer_epoch |-> h.producer_epoch, base_seq |-> h.base_seq, records |-> recs]
+      body == Body(pre)
+  IN EncPrepared([pre EXCEPT !.batch_length = Canon(NatBits(Len(body) + 9)), !.crc = Crc32cT(T, body)])
+
 \* values a new batch can carry: deltas must fit their wire types
 NewBatchDomain(p, recs) ==
   /\ Len(recs) >= 1
